@@ -35,6 +35,7 @@ def run(ctx):
     c_recursive(ctx, enc)
     d_action_fields(ctx)
     e_cleanup(ctx)
+    f_restore(ctx)
 
 
 def _enc_branches(enc):
@@ -320,6 +321,14 @@ def e_cleanup(ctx):
                         and any(".child_flow_uids.remove(" in src(x) for x in s.body) for s in before)
         ctx.check("C11.e.cleanup", SM, "_clean_up_state", "parent's child list kept in step", rm_parent,
                   "before a flow state is deleted it is removed from its (still existing) parent's child_flow_uids", line=d.line)
+    # ageing must not change what later code observes: the KEYS of flow_id_states (which flows exist / ever ran)
+    # are read by the system actions; the clean-up only shrinks the instance lists
+    delkeys = [n for n in ast.walk(fn) if (isinstance(n, ast.Delete) and any("state.flow_id_states[" in src(tg) for tg in n.targets))
+               or (isinstance(n, ast.Call) and src(n.func) in ("state.flow_id_states.pop", "state.flow_id_states.clear"))]
+    ctx.check("C11.e.cleanup", SM, "_clean_up_state", "flow_id_states keys preserved", not delkeys,
+              "the clean-up never removes a key of state.flow_id_states" if not delkeys else
+              "`%s` removes a flow's entry from state.flow_id_states after idle time: code that tests `flow_id in state.flow_id_states` (e.g. the flow-exists system actions) answers differently once more than the clean-up age has elapsed" % first_line(delkeys[0]),
+              line=(delkeys[0].lineno if delkeys else fn.lineno))
     # candidates: done AND old AND activated == 0
     coll = [n for n in ast.walk(fn) if isinstance(n, ast.If) and any("append(" in src(s) for s in n.body) and "_is_done_flow" in src(n.test)]
     ok = bool(coll)
@@ -348,3 +357,27 @@ def _anc(node, stop):
     while p is not None and p is not stop:
         yield p
         p = getattr(p, "_parent", None)
+
+
+def f_restore(ctx):
+    """A saved state continues like the live one only if every continuation starts from a DECODED copy:
+    handing out a live State object for a saved JSON makes two continuations of the same save share state."""
+    LR = "nemoguardrails/rails/llm/llmrails.py"
+    t = ctx.tree.ast(LR)
+    fn = find_function(t, "generate_async")
+    if fn is None:
+        raise AnalysisError("generate_async not found", anchor=LR + "::generate_async")
+    branches = [n for n in ast.walk(fn) if isinstance(n, ast.If) and "version" in src(n.test) and "2.x" in src(n.test) and "isinstance(state, dict)" in src(n.test)]
+    ctx.floor("C11.f.restore-decodes", LR, "restore of a serialised Colang 2 state", len(branches), 1)
+    for b in branches:
+        assigns = [a for a in ast.walk(b) if isinstance(a, ast.Assign) and any(isinstance(x, ast.Name) and x.id == "state" for x in a.targets)]
+        ok = len(assigns) == 1 and isinstance(assigns[0].value, ast.Call) and src(assigns[0].value.func) == "json_to_state" and any(assigns[0] is s_ for s_ in b.body)
+        ctx.check("C11.f.restore-decodes", LR, "LLMRails.generate_async", "state = json_to_state(...)", ok,
+                  "a serialised state is always decoded afresh (`state = json_to_state(state[\"state\"])`, unconditionally)" if ok else
+                  "the state used for a serialised input is not always a fresh decode (%s): continuing the same saved state twice continues a live object that has already moved on" % [first_line(a) for a in assigns],
+                  line=b.lineno)
+    # and what is returned is the serialisation of the output state
+    outs = [a for a in ast.walk(fn) if isinstance(a, ast.Assign) and isinstance(a.value, ast.Dict) and any(isinstance(k, ast.Constant) and k.value == "state" for k in a.value.keys)
+            and any(isinstance(v, ast.Constant) and v.value == "2.x" for v in a.value.values)]
+    ok = bool(outs) and all(any(isinstance(v, ast.Call) and src(v.func) == "state_to_json" for v in a.value.values) for a in outs)
+    ctx.check("C11.f.restore-decodes", LR, "LLMRails.generate_async", "output state serialised", ok, "the returned Colang 2 state is state_to_json(output_state)", line=fn.lineno)
